@@ -98,6 +98,36 @@ Theorem sync_equals_local_merge_structural :
                     (filter (fun r => negb (Nat.eqb r i)) (seq 0 n))))) (seq 0 n)).
 Proof. exact ToolkitP.sync_equals_local_merge_structural. Qed.
 
+(* fx_d10 (ndim negotiation): tensor states of ANY per-rank ndims (a 0-dim default next to k-dim
+   data), same sorted distinct state names, per-name equal dtype: nobody hangs and every rank merges
+   the others' tensors, delivered with their own shapes *)
+Theorem sync_equals_local_merge_fixed_ndim :
+  forall (M : Type) (sd : M -> sdict) (mrg : M -> list pseudo_t -> M)
+         (fx : fixes) (g : list nat) (Wg : nat) (ms : nat -> M) (names : list string)
+         (ts : string -> nat -> tensor),
+    let n := List.length g in
+    fx_d10 fx = true -> n > 1 -> n <= Wg -> NoDup names ->
+    (forall i, i < n -> map fst (sort_keys (sd (ms i))) = names) ->
+    (forall s, In s names -> exists z, forall i, i < n ->
+       assoc s (sd (ms i)) = Some (STensor (ts s i)) /\ wf (shp (ts s i)) (dat (ts s i)) /\ dt (ts s i) = z) ->
+    run_all (respond g) (map (fun i => get_synced_metric M sd mrg fx g n i Wg (ms i)) (seq 0 n))
+    = Some (map (fun i => Ok (mrg (ms i)
+               (map (fun j => map (fun s => (s, GT (ts s j))) names)
+                    (filter (fun r => negb (Nat.eqb r i)) (seq 0 n))))) (seq 0 n)).
+Proof. exact ToolkitP.sync_equals_local_merge_fixed_ndim. Qed.
+
+Theorem sync_no_mismatch_fixed_ndim :
+  forall (M : Type) (sd : M -> sdict) (mrg : M -> list pseudo_t -> M)
+         (fx : fixes) (g : list nat) (Wg : nat) (ms : nat -> M) (names : list string)
+         (ts : string -> nat -> tensor),
+    let n := List.length g in
+    fx_d10 fx = true -> n > 1 -> n <= Wg -> NoDup names ->
+    (forall i, i < n -> map fst (sort_keys (sd (ms i))) = names) ->
+    (forall s, In s names -> exists z, forall i, i < n ->
+       assoc s (sd (ms i)) = Some (STensor (ts s i)) /\ wf (shp (ts s i)) (dat (ts s i)) /\ dt (ts s i) = z) ->
+    run_all (respond g) (map (fun i => get_synced_metric M sd mrg fx g n i Wg (ms i)) (seq 0 n)) <> None.
+Proof. exact ToolkitP.sync_no_mismatch_fixed_ndim. Qed.
+
 Theorem sync_and_compute_equals_local_merge :
   forall (M Out : Type) (sd : M -> sdict) (mrg : M -> list pseudo_t -> M) (cmp : M -> Out)
          (fx : fixes) (g : list nat) (Wg : nat) (ms : nat -> M) order iv tl,
@@ -164,12 +194,12 @@ Definition v1 (l : list Z) : tensor := mkT 0 [List.length l] (TArr (map (fun z =
 (* D10: a state that is a scalar on one rank and 1-D on the other: the ranks issue different
    collectives (all_gather of the tensor vs all_gather of its shape) -> mismatch / hang *)
 Theorem sync_refuted_ndim :
-  forall fx : fixes,
+  forall fx : fixes, fx_d10 fx = false ->
   run_all (respond [0;1])
     (map (fun i => get_synced_metric mobj base mobj_mrg fx [0;1] 2 i 2
                      (mkM [("s", STensor (nth i [sc 1; v1 [1;2]%Z] (sc 0)))] None)) (seq 0 2))
   = None.
-Proof. intros fx. vm_compute. reflexivity. Qed.
+Proof. intros [a b c d] E. cbn in E. subst d. vm_compute. reflexivity. Qed.
 
 (* D9: sub-group [1;2] of a world of 3, list state empty on the first member only: TypeError *)
 Theorem sync_refuted_subgroup_root :
@@ -188,6 +218,19 @@ Theorem sync_subgroup_root_fixed :
           Ok (mkM (st 1) (Some [[("inputs", GL [])]]))].
 Proof. vm_compute. reflexivity. Qed.
 
+(* D10 repaired (fx_d10 alone suffices): each rank merges the other's tensor in its own shape *)
+Theorem sync_ndim_fixed :
+  let st i := [("s", STensor (nth i [sc 1; v1 [1;2]%Z] (sc 0)))] in
+  let expected := Some [Ok (mkM (st 0) (Some [[("s", GT (v1 [1;2]%Z))]]));
+                        Ok (mkM (st 1) (Some [[("s", GT (sc 1))]]))] in
+  run_all (respond [0;1])
+    (map (fun i => get_synced_metric mobj base mobj_mrg (mkFx false false false true) [0;1] 2 i 2 (mkM (st i) None)) (seq 0 2))
+  = expected /\
+  run_all (respond [0;1])
+    (map (fun i => get_synced_metric mobj base mobj_mrg V_fixed [0;1] 2 i 2 (mkM (st i) None)) (seq 0 2))
+  = expected.
+Proof. split; vm_compute; reflexivity. Qed.
+
 Print Assumptions world1_identity.
 Print Assumptions sync_no_mismatch.
 Print Assumptions sync_equals_local_merge.
@@ -195,7 +238,10 @@ Print Assumptions sync_collection_equals_local_merge.
 Print Assumptions sync_equals_local_merge_exact.
 Print Assumptions sync_collection_equals_local_merge_exact.
 Print Assumptions sync_equals_local_merge_structural.
+Print Assumptions sync_equals_local_merge_fixed_ndim.
+Print Assumptions sync_no_mismatch_fixed_ndim.
 Print Assumptions sync_and_compute_equals_local_merge.
 Print Assumptions sync_refuted_ndim.
 Print Assumptions sync_refuted_subgroup_root.
 Print Assumptions sync_subgroup_root_fixed.
+Print Assumptions sync_ndim_fixed.
